@@ -195,9 +195,8 @@ private theorem checkAll_err (r12 : Bool) (d : SectionDict) (e : PyErr) :
       · next x hx => simp at h; subst h; exact ih hx
       · simp at h
 
-/-- tag level: whatever the compiled tags are, the patched `Recover.run` (after load_tags) returns a section
-    dict or raises DXFStructureError -/
-theorem frontTags_total (tags : List CTag) :
+/-- tag level, patched configuration -/
+private theorem frontTags_total_fixed (tags : List CTag) :
     (∃ d, frontTags .fixed tags = .ok d) ∨ frontTags .fixed tags = .error .dxfStructureError := by
   unfold frontTags
   obtain ⟨⟨ver, d⟩, hr⟩ := loadSectionDict_fixed (rebuildSections tags)
@@ -208,11 +207,7 @@ theorem frontTags_total (tags : List CTag) :
   | ok d' => exact Or.inl ⟨d', rfl⟩
   | error e => rw [checkAll_err _ _ _ hc]; exact Or.inr rfl
 
-/-- byte level, tier-1 theorem of DESIGN C07: for EVERY byte string (hence for every single or multiple fault of
-    every file) the patched front end returns a section dict or raises DXFStructureError; no other exception
-    constructor of the model is reachable.  All functions involved recurse structurally on their input list
-    (no fuel), so the modelled layer cannot hang. -/
-theorem front_total (bytes : Bytes) :
+private theorem front_total_fixed (bytes : Bytes) :
     (∃ d, recoverFront .fixed bytes = .ok d) ∨ recoverFront .fixed bytes = .error .dxfStructureError := by
   unfold recoverFront loadTags
   simp only
@@ -234,13 +229,32 @@ theorem front_total (bytes : Bytes) :
     | ok tags =>
       simp only
       rcases herr with h | h
-      · rw [h]; exact frontTags_total tags
+      · rw [h]; exact frontTags_total_fixed tags
       · rw [h]; exact Or.inr rfl
 
-/-! ## 2. The four defects of the unchanged tree, as counterexamples of totality in the model
+/-- the tree under test has all four fixes: `Cfg.tree` is built from the flags that `regenerate` probes from the
+    CURRENT source (Gen/RecoverTables.lean).  Reverting any of the fix commits turns a flag to `false`, this
+    theorem fails, and with it every theorem below that speaks about the current code. -/
+theorem tree_has_all_fixes : Cfg.tree = Cfg.fixed := by decide
 
-Each witness is a complete (tiny) DXF byte stream.  With all four patches the front end answers with
-DXFStructureError or a section dict (`front_total`); switching a single patch off re-opens exactly one hole. -/
+/-- tag level: whatever the compiled tags are, `Recover.run` of the current tree (after load_tags) returns a section
+    dict or raises DXFStructureError -/
+theorem frontTags_total (tags : List CTag) :
+    (∃ d, frontTags .tree tags = .ok d) ∨ frontTags .tree tags = .error .dxfStructureError := by
+  rw [tree_has_all_fixes]; exact frontTags_total_fixed tags
+
+/-- byte level, tier-1 theorem of DESIGN C07, about the CURRENT source: for EVERY byte string (hence for every single
+    or multiple fault of every file) the front end returns a section dict or raises DXFStructureError; no other
+    exception constructor of the model is reachable.  All functions involved recurse structurally on their input list
+    (no fuel), so the modelled layer cannot hang. -/
+theorem front_total (bytes : Bytes) :
+    (∃ d, recoverFront .tree bytes = .ok d) ∨ recoverFront .tree bytes = .error .dxfStructureError := by
+  rw [tree_has_all_fixes]; exact front_total_fixed bytes
+
+/-! ## 2. The four defects fixed by 8e9a904c3, ebbd13340, c6ed255c5, 3fc8e70de, as counterexamples of totality
+
+Each witness is a complete (tiny) DXF byte stream.  With all four fixes the front end answers with
+DXFStructureError or a section dict (`front_total`); switching a single fix off re-opens exactly one hole. -/
 
 /-- `0 SECTION 0 ENDSEC 0 EOF`: a section that consists of the single tag (0, SECTION) -/
 def witnessSection : Bytes := [48, 10, 83, 69, 67, 84, 73, 79, 78, 10, 48, 10, 69, 78, 68, 83, 69, 67, 10, 48, 10, 69, 79, 70, 10]
@@ -276,12 +290,12 @@ theorem each_patch_needed :
 /-- and the patched front end handles the same inputs: a dict with a HEADER only (the orphaned header variable is
     rescued; the undecodable `\U+` part is kept as text), or DXFStructureError -/
 theorem fixed_on_witnesses :
-    recoverFront .fixed witnessSection = .ok [(sHeader, [secHead sHeader])] ∧
-    recoverFront .fixed witnessErrMsg = .error .dxfStructureError ∧
-    recoverFront .fixed witnessDetect =
+    recoverFront .tree witnessSection = .ok [(sHeader, [secHead sHeader])] ∧
+    recoverFront .tree witnessErrMsg = .error .dxfStructureError ∧
+    recoverFront .tree witnessDetect =
       .ok [(sHeader, [secHead sHeader ++ [⟨9, .str sVDwgcodepage⟩, ⟨3, .str [0xDC81]⟩]])] ∧
-    recoverFront .fixed witnessUnicode = .ok [(sHeader, [secHead sHeader])] ∧
-    recoverFront .fixed witnessUnicodeOverflow = .ok [(sHeader, [secHead sHeader])] := by
+    recoverFront .tree witnessUnicode = .ok [(sHeader, [secHead sHeader])] ∧
+    recoverFront .tree witnessUnicodeOverflow = .ok [(sHeader, [secHead sHeader])] := by
   refine ⟨?_, ?_, ?_, ?_, ?_⟩ <;> rfl
 
 /-! ## 3. The crashed writer: a completely written ENTITIES section survives whatever follows it -/
